@@ -38,6 +38,14 @@ TRANSPARENT = set(norm(p) for p in [
     "core::slice::<impl [T]>::as_mut_ptr", "core::slice::<impl [T]>::as_ptr",
 ])
 # value-or-default adapters: the result is the payload of the first argument or the second argument
+# iterator adaptors whose items are items of the iterator they wrap (first argument)
+ITER_PRESERVING = set(norm(p) for p in [
+    "std::iter::Iterator::filter", "std::iter::Iterator::rev", "std::iter::Iterator::skip", "std::iter::Iterator::take",
+    "std::iter::Iterator::skip_while", "std::iter::Iterator::take_while", "std::iter::Iterator::peekable",
+    "std::iter::Iterator::by_ref", "std::iter::Iterator::fuse", "std::iter::Iterator::inspect",
+    "std::iter::Iterator::step_by", "std::vec::Vec::<T, A>::iter", "std::collections::VecDeque::<T, A>::iter",
+])
+
 OR_DEFAULT = set(norm(p) for p in [
     "std::result::Result::<T, E>::unwrap_or", "std::option::Option::<T>::unwrap_or",
 ])
